@@ -128,6 +128,7 @@ def extract(shadow):
         # mem* calls go through forwarding functions that check the byte range against the buffer of the registered objects.
         Rule('R-IDX', r'(?<![&\w.])mString\[ (?!L \+ 1\])([^\]]*)\]', r'mString[ cv_idx( \1, L + 1)]', (30, 60)),
         Rule('R-ADR', r'&mString\[ ([^\]]*)\]', r'&mString[ cv_adr( \1, L + 1)]', (25, 50)),
+        Rule('R-STRLEN', r'std::strlen\(', '::cv_strlen(', (15, 30)),
         Rule('R-MEMSUB', r'(?:std)?::(memcpy|memmove|memset|memcmp|vsnprintf)\(', r'::cv_\1(', (30, 50)),
         Rule('R-ACCESS', r'^private:', 'public:', 1),
         Rule('R-THROW', r'throw std::out_of_range\([^;]*\);', 'CV_THROW( 1);', 2, flags=re.M | re.S),
@@ -304,12 +305,18 @@ SUBOBJ = [
     'inline void* cv_memmove( void* d, const void* s, size_t n) { cv_sub( d, n); cv_sub( s, n); return ::memmove( d, s, n); }',
     'inline void* cv_memset( void* d, int c, size_t n) { cv_sub( d, n); return ::memset( d, c, n); }',
     'inline int cv_memcmp( const void* a, const void* b, size_t n) { cv_sub( a, n); cv_sub( b, n); return ::memcmp( a, b, n); }',
+    '/* strlen by contract for the one registered source string (R-STRLEN): a C string of any length whose bytes behind the first K do not exist */',
+    'extern "C" { const char* cv_src_ptr; size_t cv_src_len; }',
+    'inline size_t cv_strlen( const char* p) { return (cv_src_ptr != 0 && p == cv_src_ptr) ? cv_src_len : ::strlen( p); }',
     'inline int cv_vsnprintf( char* s, size_t n, const char* f, va_list ap) { cv_sub( s, n); return std::vsnprintf( s, n, f, ap); }',
 ]
 
 
-def wrappers_text(L, methods, S2=None):
+def wrappers_text(L, methods, S2=None, K=None):
     S2 = S2 or L
+    # sources of any length need the first L+1 bytes of the source materialised: only where K > L (not in the light 255/256 instances)
+    def is_long(m):
+        return getattr(m, 'long_src', False) and K is not None and K > L
     o = ['// generated: extern "C" wrappers and state accessors for FixedString<%d> (compiled with the shadow header)' % L,
          '#include <cstdint>', '#include <cstring>', '#include <string>',
          'extern "C" int cv_thrown;',
@@ -333,7 +340,7 @@ def wrappers_text(L, methods, S2=None):
          'int w_api_empty(const void* self) { return static_cast<const FS*>(self)->empty(); }',
          'char w_api_cstr_at(const void* self, size_t i) { return static_cast<const FS*>(self)->c_str()[i]; }']
     for m in methods:
-        params, pre = ['void* self'], ['cv_reg_obj[0] = self; cv_reg_cap[0] = CV_L; cv_reg_obj[1] = 0; cv_reg_obj[2] = 0;',
+        params, pre = ['void* self'], ['cv_reg_obj[0] = self; cv_reg_cap[0] = CV_L; cv_reg_obj[1] = 0; cv_reg_obj[2] = 0; cv_src_ptr = 0;',
                                        '__CPROVER_assert(__CPROVER_POINTER_OFFSET(&static_cast<FS*>(self)->mString[0]) == __CPROVER_POINTER_OFFSET(self), "layout witness: mString is at offset 0");']
         for kind, name in m.args:
             if kind == 'z':
@@ -342,11 +349,20 @@ def wrappers_text(L, methods, S2=None):
                 params.append('char ' + name)
             elif kind in ('s', 'b'):
                 params.append('const char* ' + name)
+                if kind == 's' and is_long(m):
+                    # a C string of ANY length by contract of strlen (ghost length, R-STRLEN): only its first min(n, K) + 1 bytes exist
+                    params.append('size_t %s_n' % name)
+                    pre.append('cv_src_ptr = %s; cv_src_len = %s_n;' % (name, name))
             elif kind == 'd':
                 params.append('char* ' + name)
             elif kind == 'S':
                 params += ['const char* %s_p' % name, 'size_t %s_n' % name]
-                pre.append('std::string %s( %s_p, %s_n);' % (name, name, name))
+                if is_long(m):
+                    # a std::string of ANY length of which only the first min(n, K) + 1 bytes exist (view, no copy): FixedString never
+                    # needs more of a source than its capacity; a read behind them is an obligation
+                    pre.append('std::string %s( %s_p, %s_n, std::string::cv_view());' % (name, name, name))
+                else:
+                    pre.append('std::string %s( %s_p, %s_n);' % (name, name, name))
             elif kind == 'F':
                 params.append('void* %s_p' % name)
                 pre.append('FS& %s = *static_cast<FS*>(%s_p); cv_reg_obj[1] = %s_p; cv_reg_cap[1] = CV_L;' % (name, name, name))
@@ -398,7 +414,7 @@ def prelude_c(L, K, objsz_macro=True, light=False, S2=None):
          '#define L %dul' % L, '#define K %dul' % K,
          'size_t w_sizeof(void); size_t w_length(const void*); char w_char_at(const void*, size_t);',
          'size_t w_api_length(const void*); int w_api_empty(const void*); char w_api_cstr_at(const void*, size_t);',
-         'int cv_thrown; extern const void* cv_reg_obj[3]; extern size_t cv_reg_cap[3];',
+         'int cv_thrown; extern const void* cv_reg_obj[3]; extern size_t cv_reg_cap[3]; extern const char* cv_src_ptr; extern size_t cv_src_len;',
          '/* representation invariant (C10): length <= capacity and NUL at the length */',
          '/* the last buffer byte is only ever written as terminator: part of the invariant (established by the member',
          '   initialiser, preserved by every method -- checked as postcondition) so that pre-states are reachable ones */',
@@ -431,6 +447,7 @@ def contract_text(m, L, K, c11, extra_req=(), light=False, S2=None):
     params = ['void* self']
     ghosts = []          # extra ghost params (source contents, lengths)
     req, noz, defs, hdecl, hargs = [], [], [], [], ['self']
+    long_src = getattr(m, 'long_src', False) and K > L
     wargs = ['self']
     for kind, name in m.args:
         if kind == 'z':
@@ -444,12 +461,19 @@ def contract_text(m, L, K, c11, extra_req=(), light=False, S2=None):
                 params.append('size_t %s_n' % name); hdecl.append('size_t %s_n;' % name); hargs.append(name + '_n')
                 wargs += [name, name + '_n']
                 n = name + '_n'
-                req.append('%s <= K && __CPROVER_is_fresh(%s, %s + 1)' % (n, name, n))
+                if long_src:
+                    req.append('%s <= 4611686018427387903ul /* max_size() */ && __CPROVER_is_fresh(%s, (%s <= K ? %s : K) + 1) && (%s > K || %s[%s] == 0)' % (n, name, n, n, n, name, n))
+                else:
+                    req.append('%s <= K && __CPROVER_is_fresh(%s, %s + 1)' % (n, name, n))
             elif kind == 's':
                 ghosts.append('size_t %s_n' % name); hdecl.append('size_t %s_n;' % name)
                 wargs.append(name)
                 n = name + '_n'
-                req.append('%s <= K && __CPROVER_is_fresh(%s, %s + 1) && %s[%s] == 0' % (n, name, n, name, n))
+                if long_src:
+                    wargs.append(n)
+                    req.append('%s <= 4611686018427387903ul && __CPROVER_is_fresh(%s, (%s <= K ? %s : K) + 1) && (%s > K || %s[%s] == 0)' % (n, name, n, n, n, name, n))
+                else:
+                    req.append('%s <= K && __CPROVER_is_fresh(%s, %s + 1) && %s[%s] == 0' % (n, name, n, name, n))
             else:
                 wargs.append(name)
                 n = m.blen
@@ -526,9 +550,12 @@ def contract_text(m, L, K, c11, extra_req=(), light=False, S2=None):
         assigns.append('__CPROVER_object_whole(out)')
     if m.ret == 'cT':
         assigns += ['*thrown', 'cv_thrown']
-    assigns += ['cv_thrown', '__CPROVER_object_whole(cv_reg_obj)', '__CPROVER_object_whole(cv_reg_cap)']   # the R-THROW flag, the sub-object registry (ghost)
+    assigns += ['cv_thrown', '__CPROVER_object_whole(cv_reg_obj)', '__CPROVER_object_whole(cv_reg_cap)', 'cv_src_ptr', 'cv_src_len']   # the R-THROW flag, the sub-object registry (ghost)
     o.append('__CPROVER_assigns(%s)' % '; '.join(dict.fromkeys(assigns)))
     o.append('__CPROVER_ensures(WF(self))')
+    for kind, name in m.args:
+        if kind == 'F' and m.mut:
+            o.append('__CPROVER_ensures(WF(%s))  /* the other string is modified too (swap): it stays well-formed */' % name)
     if m.ret == 'r':
         o.append('__CPROVER_ensures(R == 1)  /* returns *this */')
     for cl in m.ens10:
@@ -562,7 +589,7 @@ def contract_text(m, L, K, c11, extra_req=(), light=False, S2=None):
     return '\n'.join(o) + '\n'
 
 
-def wrapper_decl(m):
+def wrapper_decl(m, long_ok=True):
     params = ['void* self']
     for kind, name in m.args:
         if kind == 'z':
@@ -571,6 +598,8 @@ def wrapper_decl(m):
             params.append('char ' + name)
         elif kind in ('s', 'b'):
             params.append('const char* ' + name)
+            if kind == 's' and getattr(m, 'long_src', False) and long_ok:
+                params.append('size_t %s_n' % name)
         elif kind == 'd':
             params.append('char* ' + name)
         elif kind == 'S':
@@ -637,7 +666,7 @@ class Unit:
             if not os.path.exists(wpath):
                 # a cross-capacity instance carries only the cross-capacity wrappers (the others are proved in the plain instance)
                 ms = [m for m in methods if getattr(m, 'cross', False) and (S2 != L or not getattr(m, 'only_diff', False))] if S2 else [m for m in methods if not getattr(m, 'cross', False)]
-                self.scratch.write('gen/%s_w.cpp.tmp' % key, wrappers_text(L, ms, S2))
+                self.scratch.write('gen/%s_w.cpp.tmp' % key, wrappers_text(L, ms, S2, K))
                 os.rename(wpath + '.tmp', wpath)
         return key, wpath
 
@@ -670,7 +699,7 @@ def make_build(unit, m, L, K, c11, methods, extra_req=(), light=False, S2=None):
         sz = unit.object_size(L, wd)
         sz2 = unit.object_size(S2, wd) if S2 else sz
         key, wpath = unit.files(L, K, c11, methods, S2)
-        ctext = (prelude_c(L, K, light=light, S2=S2) + '#define OBJSZ %dul\n#define OBJSZ2 %dul\n' % (sz, sz2) + wrapper_decl(m) + '\n' + contract_text(m, L, K, c11, extra_req, light=light, S2=S2))
+        ctext = (prelude_c(L, K, light=light, S2=S2) + '#define OBJSZ %dul\n#define OBJSZ2 %dul\n' % (sz, sz2) + wrapper_decl(m, K > L) + '\n' + contract_text(m, L, K, c11, extra_req, light=light, S2=S2))
         cname = '%s_%s%s.c' % (key, m.id, '_in' if any('/*in*/' in r for r in extra_req) else '')
         cpath = os.path.join(wd, cname)
         open(cpath, 'w').write(ctext)
@@ -703,6 +732,8 @@ def replay_args(m, L, K, inputs, content, S2=None):
             ln = gi(m.blen) if kind == 'b' else gi(name + '_n')
             ln = min(ln, K)
             a.append('str=' + ''.join('%02x' % (gi('%s_%d' % (name, j)) & 255) for j in range(ln)))
+            if kind in ('S', 's') and getattr(m, 'long_src', False) and K > L and gi(name + '_n') > K:
+                a.append('strlen=%d' % min(gi(name + '_n'), 1 << 20))   # a longer source: the bytes behind the first K are padding
         elif kind == 'F':
             a.append('other_len=%d' % gi(name + '_n'))
             a.append('other_c=' + ''.join('%02x' % (gi('%s_%d' % (name, j)) & 255) for j in range(L)))
@@ -773,7 +804,7 @@ def evidence_info(unit, tier):
                                                            '1, 2, 3, 8 (quick), + 16 (thorough); cross-capacity members with second capacity L-1, L, L+1; the 255/256 length-type boundary '
                                                            '(uint8_t -> uint16_t length field) with light contracts (invariant + memory safety, no content ghosts) for the members that finish '
                                                            'there: 17 in the quick tier, 33 in the thorough tier, the others time out; 65535/65536 not reached') + '; cross-capacity instances only where both capacities share the length type',
-                        'source C-strings / std::string arguments of length <= L+3 (bounded); (str,count) buffers of <= L+3 bytes',
+                        'source strings: the members taking a whole std::string or C string (assign, operator=, constructors, append, +=, insert(index,str), replace(pos,count,str), compare, starts_with, ends_with, contains, find, rfind) are proved for sources of ANY length - the string is a view / strlen is by ghost contract (R-STRLEN), only the first L+3 bytes exist and a read behind them is an obligation; the (str,pos,count) overloads and the find_*_of family (strchr over the whole set) keep sources of length <= L+3 (bounded); (str,count) buffers of <= L+3 bytes',
                         'throw in at() modelled by R-THROW (flag + return)', 'termination not proved',
                         'the defaulted/move special members and stream output are not under contract; every other member is: the overloads taking std::initializer_list (a (pointer, length) view built field-wise by the wrapper) and std::string::iterator (pointers into the stand-in string) included; sprintf is under contract for C10 with vsnprintf as ASSUMED contract (writes at most n bytes, NUL-terminated, returns the would-be length >= 0; encoding errors not modelled); the overloads taking FixedString iterators (insert/erase/replace/append), FixedString(const char*) and FixedString(const std::string&) are, and so are the iterator classes themselves (textual instantiation T := char, F := FixedString<L>)'],
         'not_under_contract': drops + ['FixedString() default constructor, copy constructor, destructor, copy assignment (all `= default`), move constructor (rvalue reference)'],
